@@ -432,10 +432,18 @@ def load_known():
     return json.loads(p.read_text()).get("findings", [])
 
 
-def match_known(pid, tags, known):
+def match_known(pid, tags, known, impl=None):
+    """a divergence is a known finding only when the shrunk input's tag set equals the entry's AND the observed answer has the
+    entry's shape: `signature.impl_kinds`, when given, lists the outcome kinds the finding produces (e.g. ERecursion for F17), so
+    that another failure on the same inputs (a hang, a different exception) is still reported as new"""
     for f in known:
         if f.get("status") == "known" and pid in (f.get("properties") or [f.get("property")]) \
                 and set(f["signature"]["tags"]) == set(tags):
+            kinds = f["signature"].get("impl_kinds")
+            if kinds and impl is not None:
+                got = str(impl[1]) if impl[0] == "EXC" else "ok"
+                if got not in kinds:
+                    continue
             return f
     return None
 
@@ -486,7 +494,7 @@ def run_shard(pmod, tier, seed, shard, nshards, budget_s):
             xs = shrink(x, still, frozen=surf.frozen) if surf.shrinkable else x
             ii, mm = surf.impl(xs), surf.model(rn, xs)
             tags = sorted(surf.tags(xs))
-            kf = match_known(pmod.ID, tags, known)
+            kf = match_known(pmod.ID, tags, known, ii)
             if kf:
                 st.known_seen[kf["id"]] = st.known_seen.get(kf["id"], 0) + 1
                 continue
